@@ -19,6 +19,11 @@ Tasks
   history   stateful: operators of one jac/hess call under nested `uselinopparams` contexts (directly or through `.H`):
             enter(new tensors per slot: keep / fresh leaf / non-leaf / no-grad) / evaluate(product [+ gradient]) / exit;
             inside a context the products equal the reference at the substituted tensors, after it at the previous ones.
+Grad mode of the caller: the VALUE of a product does not depend on whether the caller runs with grad mode enabled or inside
+`torch.no_grad()` (every solver's forward pass, `torch.autograd.Function.forward/backward`).  products: the whole case, or (mode
+"mixed") each product evaluation separately by a drawn bit mask, is evaluated under no_grad; history: every evaluate step carries
+its own grad mode; a no_grad evaluation with a requested differentiation order is followed by the same product in grad mode, which
+is then differentiated (an evaluation without graph must not spoil the next one with graph).
 """
 from __future__ import annotations
 
@@ -34,9 +39,13 @@ RULE = ("products: f(*args,*tail) with 1..3 float-tensor args of shapes (),(k,),
         "(float/int/int-tensor/no-grad tensor) x function kind (pure, nn.Module, nested, EditableModule, containers, nn-in-EM, "
         "1- and 2-object siblings; explicit/object-held/derived/unused tensors, non-tensor scale) x jac (output (),(m,),(m,l)) or "
         "hess (output (),(1,),(1,1)) x idxs None/int/list/tuple (targets: args and explicit parameter tensors) x operands with 0..2 "
-        "leading batch dims x f64/f32 x grad/no_grad mode x differentiation order 0/1/2 of one drawn product. "
+        "leading batch dims x f64/f32 x caller's grad mode (grad / all products under torch.no_grad() / operators built under no_grad / "
+        "mixed: each of the product evaluations under no_grad or not by a drawn bit mask) x differentiation order 0/1/2 of one drawn product "
+        "(evaluated with grad mode enabled, after the other products). "
         "reject: one non-differentiable index (alone, or anywhere in a list). "
-        "history: RuleBasedStateMachine over enter/evaluate/exit steps on the operators of one call. "
+        "history: RuleBasedStateMachine over enter/evaluate/exit steps on the operators of one call; every evaluate step (and the final "
+        "evaluation after all contexts) draws the caller's grad mode (enabled / torch.no_grad()); under no_grad the value is compared, "
+        "and when a differentiation order was drawn the same product is evaluated again with grad mode enabled and differentiated. "
         "Targets include arguments the function ignores or uses linearly only (structurally zero Jacobian/Hessian). "
         "Non-trivial = some reference matrix has a non-zero entry and (products) nin*nout>1 or a batched operand, "
         "(reject) always, (history) some evaluation happens inside a context that replaced >=1 tensor and one after an exit; "
@@ -52,6 +61,9 @@ ASSUMPTIONS = [
     "matrix, as torch.autograd.functional.jacobian/hessian return it",
     "tensors substituted through uselinopparams: same shape/dtype; the slot of the differentiated argument always requires grad "
     "(as in every caller: solve forward/backward pass the original tensors or clones requiring grad)",
+    "the value of every product is the same whether the caller has grad mode enabled or disabled (torch.no_grad()): LinearOperator "
+    "products are called from torch.autograd.Function.forward/backward of every solver; the reference is always evaluated with grad "
+    "mode enabled; nothing is asserted about the graph of a result obtained under no_grad",
     "trusts torch.autograd on the plain-torch reference expression",
 ]
 LEVEL_TEXT = ("Differential exploration against a dense autograd reference over generated argument lists, function kinds and index "
@@ -478,6 +490,10 @@ def run_products(case):
     r = case["r"]
     g = W.g
     nograd = case["mode"] == "nograd"
+    # mode "mixed": the caller's grad mode changes from one product evaluation to the next (bit i of gmask, counted over all
+    # product evaluations of the case: 1 = under torch.no_grad())
+    gmask = int(case.get("gmask", 0)) if case["mode"] == "mixed" else 0
+    neval = 0
     m0 = {}
     nonzero = False
     zero_target = False
@@ -503,13 +519,16 @@ def run_products(case):
             shp = operand_shape(name, nout, nin, xb, r)
             xv = None if shp is None else gen.randn(g, shp, W.dtype)
             ref = product_ref(name, J, xv)
-            if nograd:
+            off = nograd or bool((gmask >> (neval % 30)) & 1)
+            neval += 1
+            if off:
                 with torch.no_grad():
                     got = product_call(name, op, xv)
             else:
                 got = product_call(name, op, xv)
             tol, S = value_tol(W, J, xv)
-            msg = mismatch(got, ref, tol, "%s of the %s w.r.t. position %d (operand %s)" % (name, which, p, shp))
+            msg = mismatch(got, ref, tol, "%s of the %s w.r.t. position %d (operand %s%s)" % (
+                name, which, p, shp, ", caller under torch.no_grad()" if off else ""))
             if msg:
                 return violation("product:" + name, msg, labels)
         if which == "hess":
@@ -573,7 +592,8 @@ def run_reject(case):
 # ------------------------------------------------------------------ task: history
 
 def run_history(case):
-    """ops: ["enter", k, via, [forms], vseed] | ["eval", k, product, xbatch, r, order] | ["exit"]
+    """ops: ["enter", k, via, [forms], vseed] | ["eval", k, product, xbatch, r, order(, "grad" | "nograd")] | ["exit"]
+    (grad mode of the caller of the product; absent = "grad"); case["final_gm"]: grad mode of the evaluation after all contexts
     case["construct"]: plain | nograd (operators built under torch.no_grad) | useobj (operators built while the function's
     object parameters are substituted through PureFunction.useobjparams - what every rootfinder backward does)"""
     torch.manual_seed(0)
@@ -631,7 +651,9 @@ def run_history(case):
     nonzero = False
     orders = set()
 
-    def evaluate(k, name, xb, r, order, where):
+    evalmodes = set()
+
+    def evaluate(k, name, xb, r, order, where, gm="grad"):
         nonlocal nonzero
         order = int(order)
         m = stacks[k][-1]
@@ -642,12 +664,23 @@ def run_history(case):
         shp = operand_shape(name, nout, nin, tuple(xb), r)
         xv = None if shp is None else gen.randn(g, shp, W.dtype)
         ref = product_ref(name, J, xv)
-        got = product_call(name, ops[k], xv)
         tol, S = value_tol(W, J, xv)
         depth = len(stacks[k]) - 1
         inside = "inside %d context(s) of this operator" % depth if depth else "with the tensors it was built from"
         phase = "inside" if depth else ("after" if exited else "before")
-        msg = mismatch(got, ref, tol, "%s: %s of operator %d %s" % (where, name, k, inside))
+        evalmodes.add(gm + ("-inside" if depth else ""))
+        if gm == "nograd":
+            # the caller runs without grad mode (a solver's forward pass): same value
+            with torch.no_grad():
+                got = product_call(name, ops[k], xv)
+            msg = mismatch(got, ref, tol, "%s: %s of operator %d %s, caller under torch.no_grad()" % (where, name, k, inside))
+            if msg:
+                return violation("history_product_nograd:" + phase, msg, labels)
+            if not order:
+                return None
+            # ... and the same product right afterwards with grad mode enabled, differentiated below
+        got = product_call(name, ops[k], xv)
+        msg = mismatch(got, ref, tol, "%s: %s of operator %d %s%s" % (where, name, k, inside, " (after the same call under no_grad)" if gm == "nograd" else ""))
         if msg:
             return violation("history_product:" + phase, msg, labels)
         if order:
@@ -711,9 +744,9 @@ def run_history(case):
             stacks[k].pop()
             exited = True
         elif o[0] == "eval":
-            _, k, name, xb, r, order = o
+            _, k, name, xb, r, order = o[:6]
             k = k % nops
-            v = evaluate(k, name, xb, r, order, where)
+            v = evaluate(k, name, xb, r, order, where, o[6] if len(o) > 6 else "grad")
             if v is not None:
                 return v
             if len(stacks[k]) > 1 and any(n for kk, _, n in ctx if kk == k):
@@ -729,13 +762,13 @@ def run_history(case):
         stacks[k].pop()
         exited = True
     for k in range(nops):
-        v = evaluate(k, case["final"], [], 2, 1, "after all contexts")
+        v = evaluate(k, case["final"], [], 2, 1, "after all contexts", case.get("final_gm", "grad"))
         if v is not None:
             return v
         got = xt_call(ops[k].getlinopparams, _where="getlinopparams")
         if [id(t) for t in got] != [id(m0.get(id(t), t)) for t in slot_origs[k]["op"]]:
             return violation("linop_params_state", "after all contexts operator %d does not list its original tensors" % k, labels)
-    labels += sorted("evalorder=%d" % o_ for o_ in orders)
+    labels += sorted("evalorder=%d" % o_ for o_ in orders) + sorted("evalmode=" + e for e in evalmodes)
     labels += ["nops=%d" % nops, "enters=%d" % min(n_enter, 4), "maxdepth=%d" % maxdepth, "eval_inside=%s" % (n_eval_inside > 0)] + \
               sorted("form=" + f for f in used_forms) + sorted({"via=" + o[2] for o in case["ops"] if o[0] == "enter"})
     return ok(labels, nontrivial=nonzero and n_eval_inside > 0 and n_enter > 0)
@@ -821,7 +854,9 @@ def products_st(draw, tier="quick"):
                  "xbatch": draw(st.lists(st.integers(1, 3), max_size=2)), "r": draw(st.integers(1, 3)),
                  "order": draw(st.sampled_from([0, 1, 1, 2, 2])), "gprod": draw(st.sampled_from(PRODUCTS)),
                  "gop": draw(st.integers(0, 4)), "xreq": draw(st.booleans()),
-                 "mode": draw(st.sampled_from(["grad", "grad", "grad", "nograd", "cnograd"]))})
+                 "mode": draw(st.sampled_from(["grad", "grad", "grad", "nograd", "cnograd", "mixed", "mixed"]))})
+    if case["mode"] == "mixed":
+        case["gmask"] = draw(st.integers(1, 2 ** 30 - 1))
     return case
 
 
@@ -863,6 +898,7 @@ def machine(holder):
             # pure function, which is not meant to happen while the object is in a substituted state)
             base["construct"] = data.draw(st.sampled_from(["plain", "plain", "nograd", "useobj", "useobj"] if base["which"] == "jac"
                                                           else ["plain", "plain", "nograd"]))
+            base["final_gm"] = data.draw(st.sampled_from(["grad", "grad", "nograd"]))
             base["ops"] = []
             self.case = base
 
@@ -878,17 +914,17 @@ def machine(holder):
         @rule(k=st.integers(0, 1), via=st.sampled_from(["op", "op", "H"]),
               forms=st.lists(st.sampled_from(["keep", "leaf", "leaf", "nonleaf", "nograd"]), min_size=1, max_size=5),
               vseed=st.integers(0, 2 ** 31 - 1), name=st.sampled_from(["mv", "rmv", "mm", "rmm", "fullmatrix", "H.mv", "H.rmm"]),
-              order=st.sampled_from([0, 1, 2]))
-        def enter_and_evaluate(self, k, via, forms, vseed, name, order):
+              order=st.sampled_from([0, 1, 2]), gm=st.sampled_from(["grad", "grad", "nograd"]))
+        def enter_and_evaluate(self, k, via, forms, vseed, name, order, gm):
             self.case["ops"].append(["enter", k, via, forms, vseed])
-            self.case["ops"].append(["eval", k, name, [], 1, order])
+            self.case["ops"].append(["eval", k, name, [], 1, order, gm])
             self.depth += 1
 
         @precondition(lambda self: self.case is not None)
         @rule(k=st.integers(0, 1), name=st.sampled_from(["mv", "rmv", "mm", "rmm", "fullmatrix", "H.mv", "H.rmm"]),
-              xb=st.lists(st.integers(1, 2), max_size=1), r=st.integers(1, 2), order=st.sampled_from([0, 1, 1, 2]))
-        def evaluate(self, k, name, xb, r, order):
-            self.case["ops"].append(["eval", k, name, xb, r, order])
+              xb=st.lists(st.integers(1, 2), max_size=1), r=st.integers(1, 2), order=st.sampled_from([0, 1, 1, 2]), gm=st.sampled_from(["grad", "grad", "nograd"]))
+        def evaluate(self, k, name, xb, r, order, gm):
+            self.case["ops"].append(["eval", k, name, xb, r, order, gm])
 
         @precondition(lambda self: self.case is not None and self.depth > 0)
         @rule()
